@@ -73,10 +73,10 @@ type task struct {
 	// the scheduler was told to end such a reconcile there (AbortOnConflict)
 	conflicted bool
 	carriedOn  bool
-	res      controller.Result
-	err      error
-	panicked any
-	stack    string
+	res        controller.Result
+	err        error
+	panicked   any
+	stack      string
 }
 
 type watcherRun struct {
@@ -98,6 +98,8 @@ type watcherRun struct {
 type External struct {
 	Name string
 	Fn   func() error
+	// WhenIdle: the action is only placed once the controllers have nothing to do.
+	WhenIdle bool
 }
 
 // StepInfo describes one executed reconcile (or segment) for monitors.
@@ -216,7 +218,8 @@ func (s *Sched) enter(g *Gate, op string, effect bool) error {
 func (s *Sched) midCallCrash(g *Gate, op string) bool {
 	s.emu.Lock()
 	defer s.emu.Unlock()
-	return s.CrashAt >= 0 && s.CrashMid && s.CrashAt == s.effects-1
+	// the cut is placed in the first two-phase call at or after the chosen effect
+	return s.CrashAt >= 0 && s.CrashMid && s.effects-1 >= s.CrashAt
 }
 
 var errConflictAbort = errors.NewUnavailable("verif: reconcile ended after a refused (conflicting) write")
@@ -224,7 +227,11 @@ var errConflictAbort = errors.NewUnavailable("verif: reconcile ended after a ref
 func (s *Sched) noteConflict(g *Gate, op string) {
 	s.Conflicts++
 	s.x.Logf("      %s refused: version conflict (%s)", op, g.name)
-	if g.task != nil {
+	// the finding (and its repair) concern the transaction controller, whose
+	// actions consist of two writes; the configuration and mastership
+	// controllers write once, at the end, and are woken again by the event of
+	// the write that beat them
+	if g.task != nil && strings.HasPrefix(g.name, "transaction[") {
 		g.task.conflicted = true
 	}
 }
@@ -488,7 +495,7 @@ func (s *Sched) Run() error {
 			continue
 		}
 		cands := s.candidates()
-		if len(s.Externals) > 0 && (s.Drawn || len(cands) == 0) {
+		if len(s.Externals) > 0 && ((s.Drawn && !s.Externals[0].WhenIdle) || len(cands) == 0) {
 			cands = append(cands, cand{kind: "ext"})
 		}
 		if len(cands) == 0 {
@@ -621,8 +628,23 @@ func (s *Sched) finish(t *task) {
 		s.x.Logf("  step %d %s[%s] %s -> lost in crash", s.Steps, sl.c.name, sl.part, s.idStr(it.id))
 		return
 	}
-	if t.err == nil && t.conflicted && s.AbortOnConflict {
-		t.err = errConflictAbort
+	if t.conflicted && s.AbortOnConflict {
+		// retried on fresh state, like any reconcile that returned an error; a
+		// conflict means somebody else moved, so the retry is never parked
+		s.seq++
+		it.seq = s.seq
+		it.errs = 0
+		dup := false
+		for _, p := range sl.pending {
+			if p.id.Value == it.id.Value {
+				dup = true
+			}
+		}
+		if !dup {
+			sl.pending = append(sl.pending, it)
+		}
+		s.x.Logf("  step %d %s[%s] %s -> ended at its refused write, retried", s.Steps, sl.c.name, sl.part, s.idStr(it.id))
+		return
 	}
 	if t.err != nil {
 		it.errs++
